@@ -330,6 +330,10 @@ impl TheDrawFont {
                 None => char_lookup_table.extend(u16::to_le_bytes(0xFFFF)),
             }
         }
+        // glyph offsets and the block size are 16 bit values
+        if font_data.len() > u16::MAX as usize {
+            return Err(TdfError::DataOverflow(font_data.len()).into());
+        }
         result.extend(u16::to_le_bytes(font_data.len() as u16));
         result.extend(char_lookup_table);
         result.extend(font_data);
